@@ -102,3 +102,30 @@ package metric
 //@   loop 4
 //@     invariant 0 <= iter() && iter() <= len(c.labelNames) && fresh(newLabelsValues) && len(newLabelsValues) == iter()
 //@     invariant newCollection != nil && fresh(newCollection) && newCollection != c.collection && entries(newCollection) == atloop(entries(newCollection)) && entries(c.collection) == old(entries(c.collection))
+
+// ---- C16: the series key separates the label values ---------------------------------------------
+// Ghost log of what is fed to the hash: length and first byte of every Write.
+//@ ghost nHashWrite int
+//@ ghost hashWriteLen map[int]int
+//@ ghost hashWriteFirst map[int]int
+//@ package hash
+//@ trusted func Hash64.Write
+//@   modifies metric.nHashWrite, metric.hashWriteLen, metric.hashWriteFirst
+//@   ghostset metric.nHashWrite := metric.nHashWrite + 1
+//@   ghostset metric.hashWriteLen[metric.nHashWrite] := len(p)
+//@   ghostset metric.hashWriteFirst[metric.nHashWrite] := ite(len(p) > 0, p[0], 0 - 1)
+//@ trusted func Hash64.Sum64
+//@   modifies nothing
+//@ package github.com/flant/shell-operator/pkg/metric
+
+// Every label value is followed by the separator byte: the hashed bytes determine the tuple of
+// label values (two different tuples are not fed the same bytes), whatever their lengths.
+//@ func HashLabelValues
+//@   prop C16
+//@   requires nHashWrite >= 0
+//@   modifies nHashWrite, hashWriteLen, hashWriteFirst
+//@   ensures [two-writes-per-value] nHashWrite == old(nHashWrite) + 2 * len(labelValues)
+//@   ensures [separator-after-every-value] forall(k, old(nHashWrite), nHashWrite, (k - old(nHashWrite)) % 2 == 1 ==> hashWriteLen[k] == 1 && hashWriteFirst[k] == 255)
+//@   loop 1
+//@     invariant 0 <= iter() && iter() <= len(labelValues) && nHashWrite == old(nHashWrite) + 2 * iter()
+//@     invariant forall(k, old(nHashWrite), nHashWrite, (k - old(nHashWrite)) % 2 == 1 ==> hashWriteLen[k] == 1 && hashWriteFirst[k] == 255)
